@@ -452,6 +452,132 @@ def run_group(payload: Dict[str, Any]) -> Dict[str, Any]:
     return rep.part()
 
 
+def run_create(payload: Dict[str, Any]) -> Dict[str, Any]:
+    """create_table on an empty location, a fault / an interrupt at EVERY storage call: whatever the failed creation
+    leaves behind, a fresh process must be able to create-or-open the table, append to it and read it back (a lock
+    left by the dead creator may cost one lease)."""
+    from datashard import create_table, load_table
+
+    backend, tier, seed = payload["backend"], payload["tier"], payload["seed"]
+    rep = Report("C04", tier, seed, "fault_enumeration")
+    install_threading_seams()
+    s3w: Optional[S3World] = None
+    if backend == "local":
+        install_local_seams()
+        os.environ["DATASHARD_STORAGE_TYPE"] = "local"
+        base = fresh_dir(f"c04-create-{os.getpid()}")
+        loc = os.path.join(base, "c04tbl")
+        view: Any = reader.LocalView(loc)
+    else:
+        s3w = S3World(cas=(backend == "s3cas"))
+        s3w.__enter__()
+        loc = "c04tbl"
+        view = reader.S3View(s3w.s3, loc)
+
+    def restore() -> None:
+        if backend == "local":
+            shutil.rmtree(loc, ignore_errors=True)
+        else:
+            s3w.s3.load_state({})
+        ENV.reset(0)
+        ENV.set_actor("op")
+
+    def attach(inj: Injector) -> None:
+        if backend == "local":
+            ENV.hooks.append(inj)
+        else:
+            s3w.s3.gates.append(inj.gate)
+            s3w.s3.after.append(inj.s3_after)
+
+    def detach(inj: Injector) -> None:
+        if backend == "local":
+            if inj in ENV.hooks:
+                ENV.hooks.remove(inj)
+        else:
+            if inj.gate in s3w.s3.gates:
+                s3w.s3.gates.remove(inj.gate)
+            if inj.s3_after in s3w.s3.after:
+                s3w.s3.after.remove(inj.s3_after)
+
+    try:
+        kinds = KINDS_LOCAL if backend == "local" else KINDS_S3
+        if tier == "quick":
+            kinds = {k: v for k, v in kinds.items() if k != "sysexit_after"}
+        restore()
+        rec = Injector()
+        attach(rec)
+        try:
+            create_table(loc, schema())
+        finally:
+            detach(rec)
+        calls = list(rec.calls)
+        rep.add("storage_calls_numbered", len(calls))
+        for i, call in enumerate(calls):
+            for kname, (when, fac, pers) in kinds.items():
+                if when == "after" and backend != "local" and not call[0].startswith(("PUT", "DELETE")) \
+                        and not kname.startswith("interrupt"):
+                    continue
+                restore()
+                inj = Injector([(i, when, fac, pers)])
+                attach(inj)
+                try:
+                    create_table(loc, schema())
+                    outcome = ("ok", None)
+                except BaseException as e:  # noqa - the outcome is data
+                    outcome = ("raise", type(e).__name__)
+                finally:
+                    detach(inj)
+                rep.add("evaluations")
+                rep.add("create_fault_runs")
+                if not inj.fired:
+                    rep.add("plans_not_reached")
+                    continue
+                problems: List[str] = []
+                ENV.set_actor("followup")
+                t = None
+                for attempt in range(3):
+                    try:
+                        t = create_table(loc, schema())
+                        break
+                    except TimeoutError:
+                        ENV.advance(61.0 if backend != "local" else 301.0)  # the dead creator's lock lapses
+                    except BaseException as e:  # noqa
+                        problems.append(f"create-or-open after the failed creation raised {type(e).__name__}: {str(e)[:140]}")
+                        break
+                if t is None and not problems:
+                    problems.append("create-or-open after the failed creation keeps timing out on the lock")
+                if t is not None:
+                    try:
+                        ok = None
+                        for attempt in range(3):
+                            try:
+                                ok = t.append_records([row(99)])
+                                break
+                            except TimeoutError:
+                                ENV.advance(61.0 if backend != "local" else 301.0)
+                        got = reader.canon_rows(load_table(loc).scan())
+                        ind = reader.TableState(view).current_rows()
+                        if ok is not True or got != [reader.canon_row(row(99))] or ind != got:
+                            problems.append(f"table created after the failed creation: append -> {ok!r}, scan {got}, independent {ind}")
+                    except BaseException as e:  # noqa
+                        problems.append(f"table created after the failed creation is unusable: {type(e).__name__}: {str(e)[:140]}")
+                rep.nontrivial((backend, "create", kname, outcome[0], str(outcome[1]), _short(call[1]), call[0]))
+                if problems:
+                    after_flip = any(_is_pointer_write(c) for c in calls[:i + (1 if when == "after" else 0)])
+                    rep.violation(
+                        {"backend": backend, "op": "create", "style": "create_table", "fault": kname,
+                         "phase": "at_or_after_pointer_write" if after_flip else "before_pointer_write",
+                         "problem": problems[0].split(":")[0][:80]},
+                        {"plan": f"{kname}@{i}", "at_call": [list(call)], "outcome": list(map(str, outcome)),
+                         "problems": problems, "payload": payload, "create": True, "plants": [[i, when, kname, pers]]})
+        rep.sample({"group": f"{backend}/create", "calls": [f"{i}: {c[0]} {c[1]}" for i, c in enumerate(calls)][:40]})
+    finally:
+        if s3w is not None:
+            s3w.__exit__(None, None, None)
+    rep.add("groups")
+    return rep.part()
+
+
 def run_reuse(payload: Dict[str, Any]) -> Dict[str, Any]:
     """One Transaction handle reused: round 1 is interrupted right AFTER the pointer flip (durable, reported as an
     interrupt), round 2 on the same handle then fails cleanly at every possible storage call.  The rollback of round 2
@@ -555,6 +681,8 @@ def run(tier: str, seed: int) -> Report:
         rep.merge(part)
     for part in pmap("checks.c04", "run_reuse", [{"tier": tier, "seed": seed, "reuse": True}]):
         rep.merge(part)
+    for part in pmap("checks.c04", "run_create", [{"backend": b, "tier": tier, "seed": seed} for b in ("local", "s3cas", "s3nocas")]):
+        rep.merge(part)
     rep.cov["exhaustive"] = not rep.caps
     rep.cov["rule"] = ("every storage-level call (local: os-level events; S3: requests) of each (backend, op, style) commit x "
                        "every applicable fault kind (thorough: + all ordered fault pairs in the commit region); non-trivial = "
@@ -572,6 +700,6 @@ def run(tier: str, seed: int) -> Report:
 def replay(case: Dict[str, Any]) -> Dict[str, Any]:
     d = case["detail"]
     p = dict(d["payload"])
-    part = run_reuse(p) if p.get("reuse") else run_group(p)
+    part = run_create(p) if d.get("create") else (run_reuse(p) if p.get("reuse") else run_group(p))
     hit = [v for v in part["violations"].values() if v["detail"]["plan"] == d["plan"]]
     return {"violated": bool(hit), "matching": hit[:1]}
